@@ -361,7 +361,7 @@ theorem decodeArea_acct (tb : MsgTables) (enc : Bool) (t : Ty) (path : Path) (s 
   unfold decodeArea
   split
   · split
-    · exact acct_crash s _ _
+    · exact decode_acct t path none s
     · apply Acct.of_emit (.marshal ⟨path, .named _ true, none, "", 0⟩) rfl
       exact (fields_acct _ path [] _).bind fun vals s' _ => acct_ok s' _
   · exact decode_acct t path none s
